@@ -78,3 +78,9 @@ func debugDump(c *Ctx, what string) {
 		}
 	}
 }
+
+func (r *Report) dumpObs() {
+	for _, o := range r.Obs {
+		fmt.Printf("%-12s %-14s %s  [%s] %s%s\n", o.Status, o.Rule, strings.TrimPrefix(o.Key, o.Rule+"|"), o.Pos, o.By, o.Detail)
+	}
+}
